@@ -18,7 +18,7 @@ func init() {
 	fw.Register(&fw.Check{
 		ID:    "C15",
 		Level: "exploration",
-		Rule: "every instruction and terminator of every function of every accepted corpus module (atoms with all 66 kinds, /repo testdata, llvm-stress, generated modules) is examined: (1) completeness: the addresses of all non-nil value-typed fields found by reflection (directly, in argument lists, Incoming, Case, Clause, OperandBundle) must be exactly the pointers returned by Operands(); (2) liveness: a fresh same-typed sentinel written through each slot must change exactly that operand in LLString() and restoring must restore the text; (3) replace-all-uses: substituting a value through the slots of all users must leave no occurrence of its identifier in the printed function besides its definition; (4) Succs() must equal the block-valued target fields in order, be blocks of the same function, and follow a target rewritten through a slot; (5) after the operand-holding lists (Incs, Args, Cases, Clauses, Indices, bundles) are replaced by equal copies, Operands() must describe the new slots; (6) no operand slot is shared by two users of a module. " +
+		Rule: "every instruction and terminator of every function of every accepted corpus module (atoms with all 66 kinds, /repo testdata, llvm-stress, generated modules) is examined: (1) completeness: the addresses of all non-nil value-typed fields found by reflection (directly, in argument lists, Incoming, Case, Clause, OperandBundle) must be exactly the pointers returned by Operands(); (2) liveness: a fresh same-typed sentinel written through each slot must change exactly that operand in LLString() and restoring must restore the text; (3) replace-all-uses: substituting a value through the slots of all users must leave no occurrence of its identifier in the printed function besides its definition; (4) Succs() must equal the block-valued target fields in order, be blocks of the same function, and follow a target rewritten through a slot; (5) after the operand-holding lists (Incs, Args, Cases, Clauses, Indices, bundles) are replaced by equal copies, Operands() must describe the new slots; (6) no operand slot is shared by two users of a module; (7) a copy of an instruction made by assignment after Operands() was called answers with its own fields; (8) an operand list handed out is not rewritten by later Operands() calls. " +
 			"(7) every terminator built by its constructor: no typed nil in Operands(), no nil in Succs(); a target replaced by a twin block carrying the old label must show in Succs(), also on never-printed functions; replace-all-uses also substitutes the results of invoke, callbr and catchswitch. " +
 			"non-trivial = an instruction/terminator with at least one operand slot; distinct by (instruction kind, printed text)",
 		Gen:           genC15,
@@ -397,6 +397,63 @@ func c15User(r *fw.Rec, id, text string, f *ir.Func, u interface{}) {
 	}
 	c15AfterSliceEdit(r, text, u, false)
 	c15AfterSliceEdit(r, text, u, true)
+	c15AfterStructCopy(r, text, u)
+}
+
+// c15AfterStructCopy: Operands() has been called on u (above). A copy of the
+// instruction made by assignment (`*dup = *orig`, how a cloning pass starts)
+// must answer for itself: the slots dup.Operands() returns are the direct
+// value-typed fields of dup, none of them a field of the original.
+func c15AfterStructCopy(r *fw.Rec, text string, u interface{}) {
+	rv := reflect.ValueOf(u)
+	if rv.Kind() != reflect.Ptr || rv.Elem().Kind() != reflect.Struct {
+		return
+	}
+	kind := kindOf(u)
+	if p, _, _ := fw.Guard(func() { _ = u.(operander).Operands() }); p {
+		return
+	}
+	dupv := reflect.New(rv.Elem().Type())
+	dupv.Elem().Set(rv.Elem())
+	dup, ok := dupv.Interface().(operander)
+	if !ok {
+		return
+	}
+	var ops []*value.Value
+	if p, msg, _ := fw.Guard(func() { ops = dup.Operands() }); p {
+		r.Violate(fw.Violation{Key: "operands-panic-after-copy/" + kind, Input: text, What: "Operands() panics on a copy of the instruction made by assignment: " + msg})
+		return
+	}
+	r.Eval(1)
+	// direct fields only: slices and pointed-to entries are shared by a shallow copy
+	direct := func(x reflect.Value) map[*value.Value]bool {
+		out := map[*value.Value]bool{}
+		st := x.Elem()
+		for i := 0; i < st.NumField(); i++ {
+			if st.Type().Field(i).PkgPath == "" && st.Type().Field(i).Type == valueIface && st.Field(i).CanAddr() {
+				out[st.Field(i).Addr().Interface().(*value.Value)] = true
+			}
+		}
+		return out
+	}
+	mine, theirs := direct(dupv), direct(rv)
+	inOps := map[*value.Value]bool{}
+	for _, p := range ops {
+		inOps[p] = true
+		if theirs[p] {
+			r.Violate(fw.Violation{Key: "copy-shares-slots/" + kind + "/" + slotName(u, p), Input: text,
+				What: fmt.Sprintf("after Operands() was called on a %s, a copy of it made by assignment returns from its own Operands() the slot %s of the original: a write through it changes the original", kind, slotName(u, p))})
+			return
+		}
+	}
+	for p := range mine {
+		if *p != nil && !inOps[p] {
+			r.Violate(fw.Violation{Key: "copy-incomplete/" + kind, Input: text,
+				What: fmt.Sprintf("after Operands() was called on a %s, Operands() of a copy made by assignment does not expose one of the copy's own operand fields", kind)})
+			return
+		}
+	}
+	r.Tally("liveness", "copy-answers-for-itself")
 }
 
 // c15AfterSliceEdit re-checks completeness after the user's operand-holding
